@@ -165,18 +165,46 @@ fn map_entries() -> Vec<(&'static str, MapEntry)> {
         }),
         ("HashMapRef::fmt", |m, g, _| sink(format!("{:?}", m.with_guard(g)))),
         ("HashMapRef::serialize", |m, g, _| sink(serde_json::to_string(&m.with_guard(g)).ok())),
-        ("HashMapRef::eq(HashMapRef)", |m, g, _| {
-            let o = FMap::with_hasher(HB(HMode::Identity));
+        // the other operand holds the same entries (equal lengths, so the comparison really looks
+        // every key up in the right-hand operand) or nothing (early exit on the lengths)
+        ("HashMapRef::eq(HashMapRef)", |m, g, a| {
+            let o = twin_of(m, a % 2 == 0);
             let go = o.guard();
             sink(m.with_guard(g) == o.with_guard(&go));
             sink(o.with_guard(&go) == m.with_guard(g));
         }),
-        ("HashMapRef::eq(HashMap)", |m, g, _| {
-            let o = FMap::with_hasher(HB(HMode::Identity));
+        ("HashMapRef::eq(HashMap)", |m, g, a| {
+            let o = twin_of(m, a % 2 == 0);
             sink(m.with_guard(g) == o);
             sink(o == m.with_guard(g));
         }),
+        ("HashMapRef::eq(pinned HashMapRef)", |m, g, a| {
+            let o = twin_of(m, a % 2 == 0);
+            sink(o.pin() == m.with_guard(g));
+            sink(m.with_guard(g) == o.pin());
+        }),
     ]
+}
+
+/// a map with its own collector holding the same entries as `m` (or none)
+fn twin_of(m: &FMap, same: bool) -> FMap {
+    let o = FMap::with_hasher(HB(HMode::Identity));
+    if same {
+        let (mg, go) = (m.guard(), o.guard());
+        for (k, v) in m.iter(&mg) {
+            o.insert(K::new(k.tag), V::new(v.payload), &go);
+        }
+    }
+    o
+}
+fn set_twin_of(s: &FSet) -> FSet {
+    let o = FSet::with_hasher(HB(HMode::Identity));
+    let (sg, go) = (s.guard(), o.guard());
+    for k in s.iter(&sg) {
+        o.insert(K::new(k.tag), &go);
+    }
+    drop((sg, go));
+    o
 }
 
 fn set_entries() -> Vec<(&'static str, SetEntry)> {
@@ -219,6 +247,15 @@ fn set_entries() -> Vec<(&'static str, SetEntry)> {
             sink(o.with_guard(go) == s.with_guard(g));
             sink(s.with_guard(g) == *o);
             sink(*o == s.with_guard(g));
+        }),
+        ("HashSetRef::eq(equal set)", |s, _, g, _, _| {
+            let t = set_twin_of(s);
+            let gt = t.guard();
+            sink(s.with_guard(g) == t.with_guard(&gt));
+            sink(t.with_guard(&gt) == s.with_guard(g));
+            sink(s.with_guard(g) == t);
+            sink(t == s.with_guard(g));
+            sink(t.pin() == s.with_guard(g));
         }),
         ("HashSetRef::is_disjoint(our)", |s, o, g, go, _| sink(s.with_guard(g).is_disjoint(&o.with_guard(go)))),
         ("HashSetRef::is_subset(our)", |s, o, g, go, _| sink(s.with_guard(g).is_subset(&o.with_guard(go)))),
